@@ -425,3 +425,91 @@ def magic_square_count(n):
                 sum(m[i][i] for i in range(n)) == t and sum(m[i][n - 1 - i] for i in range(n)) == t:
             c += 1
     return c
+
+
+# ------------------------------------------------------------------ symmetric images (definition level, validated by the caller)
+def images_quasigroup_rc(n, limit=6000):
+    """Images of a quasigroup in the colour/row/column layout under relabelling of the elements: Q'(pi a, pi b) =
+    pi Q(a, b). Idempotency and the QG identities are invariant. Yields at most `limit` permutations (all when n! fits)."""
+    import itertools
+    import math
+    import random
+
+    def img(s, pi):
+        color = [[0] * n for _ in range(n)]
+        for i in range(n):
+            for j in range(n):
+                color[pi[i]][pi[j]] = pi[s[i * n + j]]
+        row = [[0] * n for _ in range(n)]
+        col = [[0] * n for _ in range(n)]
+        for i in range(n):
+            for j in range(n):
+                c = color[i][j]
+                row[c][j] = i
+                col[i][c] = j
+        return tuple(x for m in (color, row, col) for r in m for x in r)
+
+    def gen(s):
+        if math.factorial(n) <= limit:
+            perms = itertools.permutations(range(n))
+        else:
+            rnd = random.Random(n)
+            perms = (tuple(rnd.sample(range(n), n)) for _ in range(limit))
+        for pi in perms:
+            yield img(s, pi)
+
+    return gen
+
+
+def images_magic_square(n):
+    """The eight rotations/reflections of a magic square and their complements (v -> n^2-1-v)."""
+    def gen(s):
+        m = [list(s[i * n:(i + 1) * n]) for i in range(n)]
+        cur = m
+        for _ in range(4):
+            cur = [list(r) for r in zip(*cur[::-1])]
+            for mm in (cur, [r[::-1] for r in cur]):
+                flat = tuple(x for r in mm for x in r)
+                yield flat + tuple(s[n * n:])
+                yield tuple(n * n - 1 - x for x in flat) + tuple(s[n * n:])
+
+    return gen
+
+
+def prefix_images_bibd(v_, b, k=12):
+    """Row and column permutations of the incidence matrix (prefix = the v*b matrix cells)."""
+    import random
+
+    def gen(s):
+        rnd = random.Random(hash(tuple(s[:v_ * b])) & 0xffff)
+        m = [list(s[i * b:(i + 1) * b]) for i in range(v_)]
+        for _ in range(k):
+            pr = rnd.sample(range(v_), v_)
+            pc = rnd.sample(range(b), b)
+            yield tuple(m[pr[i]][pc[j]] for i in range(v_) for j in range(b))
+
+    return gen
+
+
+def prefix_images_schur(n):
+    import itertools
+
+    def gen(s):
+        for pi in itertools.permutations(range(3)):
+            yield tuple(s[3 * x + pi[k]] for x in range(n) for k in range(3))
+
+    return gen
+
+
+def prefix_images_queens(n):
+    def gen(s):
+        q = list(s[:n])
+        inv = [0] * n
+        for i, c in enumerate(q):
+            inv[c] = i
+        for base in (q, inv):
+            for a in (base, base[::-1]):
+                yield tuple(a)
+                yield tuple(n - 1 - x for x in a)
+
+    return gen
